@@ -18,7 +18,7 @@ class OperatorData():
 
     """
     def __init__(self, fun_name, priority, *, assoc=None, arity=BINARY,
-                 ascii_op, unicode_op=None, key=None):
+                 ascii_op, unicode_op=None, key=None, parse_priority=None):
         self.fun_name = fun_name
         self.priority = priority
         self.assoc = assoc
@@ -32,6 +32,12 @@ class OperatorData():
             self.key = self.fun_name
         else:
             self.key = key
+        # Priority of a unary operator when it appears as an argument of a
+        # binary operator: the level at which the parser reads it.
+        if parse_priority is None:
+            self.parse_priority = priority
+        else:
+            self.parse_priority = parse_priority
 
 
 class BinderData():
@@ -55,35 +61,39 @@ class BinderData():
             self.key = key
 
 
+# The priorities follow the precedence ladder of the grammar in parser.py:
+# operators read at different levels of the ladder have different priorities,
+# and operators whose grammar rule has the same nonterminal on both sides are
+# printed right-associative (the way the parser resolves them).
 op_data_raw = [
-    OperatorData("equals", 50, assoc=LEFT, ascii_op="="),
+    OperatorData("equals", 56, assoc=LEFT, ascii_op="="),
     OperatorData("equals", 25, assoc=RIGHT, ascii_op="<-->", unicode_op="⟷", key="iff"),
     OperatorData("implies", 20, assoc=RIGHT, ascii_op="-->", unicode_op="⟶"),
     OperatorData("conj", 35, assoc=RIGHT, ascii_op="&", unicode_op="∧"),
     OperatorData("disj", 30, assoc=RIGHT, ascii_op="|", unicode_op="∨"),
-    OperatorData("neg", 95, arity=UNARY, ascii_op="~", unicode_op="¬"),
-    OperatorData("plus", 65, assoc=LEFT, ascii_op="+"),
-    OperatorData("minus", 65, assoc=LEFT, ascii_op="-"),
-    OperatorData("uminus", 95, arity=UNARY, ascii_op="-"),
+    OperatorData("neg", 95, arity=UNARY, ascii_op="~", unicode_op="¬", parse_priority=40),
+    OperatorData("plus", 68, assoc=LEFT, ascii_op="+"),
+    OperatorData("minus", 68, assoc=LEFT, ascii_op="-"),
+    OperatorData("uminus", 95, arity=UNARY, ascii_op="-", parse_priority=85),
     OperatorData("power", 81, assoc=LEFT, ascii_op="^"),
     OperatorData("times", 70, assoc=LEFT, ascii_op="*"),
     OperatorData("real_divide", 70, assoc=LEFT, ascii_op="/"),
     OperatorData("nat_divide", 70, assoc=LEFT, ascii_op="DIV"),
     OperatorData("nat_modulus", 70, assoc=LEFT, ascii_op="MOD"),
-    OperatorData("less_eq", 50, assoc=LEFT, ascii_op="<=", unicode_op="≤"),
-    OperatorData("less", 50, assoc=LEFT, ascii_op="<"),
-    OperatorData("greater_eq", 50, assoc=LEFT, ascii_op=">=", unicode_op="≥"),
-    OperatorData("greater", 50, assoc=LEFT, ascii_op=">"),
+    OperatorData("less_eq", 53, assoc=RIGHT, ascii_op="<=", unicode_op="≤"),
+    OperatorData("less", 52, assoc=RIGHT, ascii_op="<"),
+    OperatorData("greater_eq", 51, assoc=RIGHT, ascii_op=">=", unicode_op="≥"),
+    OperatorData("greater", 50, assoc=RIGHT, ascii_op=">"),
     OperatorData("zero", 0, arity=CONST, ascii_op="0"),
-    OperatorData("append", 65, assoc=RIGHT, ascii_op="@"),
-    OperatorData("cons", 65, assoc=RIGHT, ascii_op="#"),
-    OperatorData("member", 50, assoc=LEFT, ascii_op="Mem", unicode_op="∈"),
-    OperatorData("subset", 50, assoc=LEFT, ascii_op="Sub", unicode_op="⊆"),
-    OperatorData("inter", 70, assoc=LEFT, ascii_op="Int", unicode_op="∩"),
+    OperatorData("append", 67, assoc=RIGHT, ascii_op="@"),
+    OperatorData("cons", 66, assoc=RIGHT, ascii_op="#"),
+    OperatorData("member", 55, assoc=RIGHT, ascii_op="Mem", unicode_op="∈"),
+    OperatorData("subset", 54, assoc=RIGHT, ascii_op="Sub", unicode_op="⊆"),
+    OperatorData("inter", 69, assoc=LEFT, ascii_op="Int", unicode_op="∩"),
     OperatorData("union", 65, assoc=LEFT, ascii_op="Un", unicode_op="∪"),
     OperatorData("empty_set", 0, arity=CONST, ascii_op="{}", unicode_op="∅"),
-    OperatorData("Union", 95, arity=UNARY, ascii_op="UN ", unicode_op="⋃"),
-    OperatorData("Inter", 95, arity=UNARY, ascii_op="INT ", unicode_op="⋂"),
+    OperatorData("Union", 95, arity=UNARY, ascii_op="UN ", unicode_op="⋃", parse_priority=90),
+    OperatorData("Inter", 95, arity=UNARY, ascii_op="INT ", unicode_op="⋂", parse_priority=91),
     OperatorData("comp_fun", 60, assoc=RIGHT, ascii_op="O", unicode_op="∘"),
 ]
 
